@@ -1091,13 +1091,27 @@ func (c *clientTask) RunEvent(time.Time) {
 			x.dialed[tok(c.ci, ei)] = &dialRec{plan: e, home: plan.Home}
 			k.Unlock()
 			var ctxDL time.Time // the context's deadline bounds dial and exchange together
+			// the package-level Exchange / ExchangeContext: a datagram client with every setting at its default
+			pkgLevel := dconn != nil && e.TOKind == 2 && cl.Dialer == nil && !sharedCl && !signed && e.OptSize == 0 && e.ReadTOMs == 0
+			if pkgLevel {
+				k.Lock()
+				ex.guar = 512
+				k.Unlock()
+				x.bump("cover.package_level_exchange")
+			}
 			if api == 4 {
 				ctx := common.NewCtx(k, time.Duration(e.TimeoutMs)*time.Millisecond/2, "cli")
 				ctxDL, _ = ctx.Deadline()
 				if ctxDL.Before(deadline) {
 					deadline = ctxDL
 				}
-				r, _, err = cl.ExchangeContext(ctx, m, addr)
+				if pkgLevel {
+					r, err = dns.ExchangeContext(ctx, m, addr)
+				} else {
+					r, _, err = cl.ExchangeContext(ctx, m, addr)
+				}
+			} else if pkgLevel {
+				r, err = dns.Exchange(m, addr)
 			} else {
 				r, _, err = cl.Exchange(m, addr)
 			}
